@@ -76,7 +76,8 @@ partial def vOf (j : Json) : V :=
 def oracle (log : List Json) : Oracle :=
   let res := log.filter fun i => str i "hook" == "resolver"
   let dirs := log.filter fun i => (str i "hook").startsWith "directive:"
-  { res := fun p =>
+  { res := fun path =>
+      let p := pathStr path
       match res.find? (fun i => str i "path" == p) with
       | none => .missing
       | some i =>
@@ -84,7 +85,8 @@ def oracle (log : List Json) : Oracle :=
         | "error" | "errval" => .err (str i "msg")
         | "panic" => .panic (str i "msg")
         | _ => match i.getObjVal? "val" with | .ok v => .val (vOf v) | _ => .val .null
-    dir := fun p name =>
+    dir := fun path name =>
+      let p := pathStr path
       match dirs.find? (fun i => str i "path" == p && str i "hook" == "directive:" ++ name) with
       | none => .missing
       | some i =>
